@@ -100,6 +100,15 @@ fn read_fields(toks: &[Tok], named: bool) -> Result<Vec<FieldShape>, String> {
         if f.first().map(|t| t.is_ident("pub")).unwrap_or(false) {
             is_pub = true;
             f = &f[1..];
+            // a restricted visibility (`pub(crate)` ...) is not `pub`
+            let restricted = f.first().map(|t| t.is_p("(")).unwrap_or(false)
+                && f.get(1).map(|t| ["crate", "super", "self", "in"].iter().any(|k| t.is_ident(k))).unwrap_or(false);
+            if restricted {
+                if let Some(close) = f.iter().position(|t| t.is_p(")")) {
+                    is_pub = false;
+                    f = &f[close + 1..];
+                }
+            }
         }
         if named {
             match f {
